@@ -151,7 +151,10 @@ def _unquote_path(path):
     # prior to comparison, unless it is the "/" character, which has 
     # special meaning in a path.'
     path = re.sub("%2[fF]", "\n", path)
-    path = urllib_unquote(path)
+    # The file is decoded as ISO-8859-1, one character per octet, so the
+    # escaped octets have to be decoded the same way (the default, UTF-8,
+    # would never match a path written with the characters themselves).
+    path = urllib_unquote(path, encoding="iso-8859-1")
     return path.replace("\n", "%2F")
 
 
